@@ -25,4 +25,34 @@ PROPS = {
         partial="the transliteration of main.go's validation chain (Model/Cli.lean) is tied to the code by running the real CLI on the combinations (exhaustively in the thorough tier) and comparing with the model; cobra/pflag parsing and the OS are runtime",
         trusted=["spf13/cobra + pflag flag parsing, os.Stdin.Stat(), os.Create: exercised through the real binary, not modelled"],
     ),
+    "C13": dict(
+        module="Anonymongo.Props.C13",
+        theorems=["Anonymongo.C13_form", "Anonymongo.C13_depth", "Anonymongo.C13_dollar", "Anonymongo.C13_componentwise", "Anonymongo.C13_inj_mod", "Anonymongo.C13_pure"],
+        corr=["misc"],
+        statement="forall names and replacement texts: every block is <replacement>_<16 lower-case hex>; one block per dotted component; leading '$' irrelevant; P(a.b) = P(a).P(b); equal pseudonyms iff equal 8-byte SHA-256 prefixes",
+        partial="'different components always receive different pseudonyms' is false for all strings (2^64 outputs): proved up to a collision of truncated SHA-256 (C13_inj_mod); distinctness over all names of length <= 3 over 40 symbols is ENUMERATED on the implementation, not proved. SHA-256 in the model is corresponded with crypto/sha256, not verified. Stability across processes is sampled (two processes, permuted call orders).",
+    ),
+    "C06": dict(
+        module="Anonymongo.Props.C06",
+        theorems=["Anonymongo.C06_local", "Anonymongo.C06_skip", "Anonymongo.C07_others", "Anonymongo.C06_faultfree", "Anonymongo.C06_crlf", "Anonymongo.C06_final"],
+        corr=["stream", "line", "text"],
+        statement="for an arbitrary line function: processLines (A++B) = processLines A ++ processLines B; skipped lines contribute nothing; a fault-free run of the scan loop emits exactly the order-preserving map over the scanned lines; CRLF and LF texts of the same lines scan to the same tokens; the final newline is optional",
+        partial="channel independence (file / .gz / stdin x stdout / --outputFile, progress bar) is runtime behaviour of os, gzip and the terminal: established by whole-program runs compared byte for byte with the per-line results, not by a theorem; 'is a JSON object' is the model parser, corresponded with encoding/json",
+        trusted=["bufio.Scanner / ScanLines semantics (64 KiB token limit, CR dropping, final unterminated token) are re-implemented in Model/Stream.lean and corresponded"],
+    ),
+    "C07": dict(
+        module="Anonymongo.Props.C06",
+        theorems=["Anonymongo.C07_others", "Anonymongo.C07_long", "Anonymongo.C06_faultfree", "Anonymongo.C03_line"],
+        extra_modules=["Anonymongo.Props.C03"],
+        corr=["text", "line", "stream", "sweep", "arb"],
+        statement="the model's line function is total by construction (every Go type assertion / index is a checked match in the model); one line yields at most one output line and leaves the others untouched (C07_others); the scan stops with an error exactly at the first line longer than 65535 bytes and delivers the lines strictly before it (C07_long)",
+        partial="that the Go code does not panic where the model answers cannot be proved about Go: it is the correspondence (panics are recovered by the harness and reported as a disagreement) on hostile inputs: every JSON token class, truncations, byte flips, invalid UTF-8, wrong value kinds under every table key and extended-JSON wrapper, nesting depth 20000",
+    ),
+    "C08": dict(
+        module="Anonymongo.Props.C06",
+        theorems=["Anonymongo.C08_ok_iff", "Anonymongo.C08_write_prefix", "Anonymongo.C08_read_prefix", "Anonymongo.emitAll_prefix"],
+        corr=["stream"],
+        statement="for every input, read-fault position and failing-write index: the result is ok iff no fault was reached and no line is over-long; bytes written before a failing write are a whole-line prefix of the fault-free output; a read fault at a line boundary yields a prefix and an error",
+        partial="C08_read_prefix is stated for cuts at line boundaries; a cut inside a line hands the partial tail to the parser, which rejects every proper prefix of a JSON object since the fix of the truncated-object defect (corresponded, sampled at every kind of offset) - the general statement for mid-line cuts is not yet a theorem. Real devices (/dev/full, closed pipe) and gzip damage are runtime: whole-program runs",
+    ),
 }
